@@ -307,6 +307,22 @@ example :
     (s'.reqs 0).res = .timeout ∧ (s'.reqs 0).dones = 1 ∧ (s'.reqs 1).dones = 1 := by
   decide +kernel
 
+/-- non-vacuity, "expiry while in processing": request 1's TTL instant falls while the loop owns it
+(refused attempt, gate before the re-push); the scan in between leaves it alone; the attempt ends
+(`pre` ends with the loop parked again, the watcher idle, request 1 `enqueued`, expired, no verdict):
+`eventually_verdict` applies — the next scan re-examines the already expired entry and rejects it. -/
+example :
+    let cfg : Cfg := ⟨3, 1000, 1, 3000⟩
+    let pre : List Act := schedule cfg { s := St.init 1700000000000 }
+      [.arrive 0, .tick, .arrive 1, .tick, .tickHold, .advance 1300, .idle] ++ [.loopStep 0, .loopStep 0]
+    let mid : List Act := [.wStep 0, .wStep 0, .wStep 0, .wStep 0, .wStep 0]
+    let s := run cfg (St.init 1700000000000) pre
+    let s' := run cfg s (.wScan :: mid)
+    s.loop = .idle ∧ s.watcher = .idle ∧ s.n = 2 ∧ (s.reqs 1).inMap = true ∧ (s.reqs 1).dones = 0 ∧
+    (s.reqs 1).st = .enqueued ∧ (s.reqs 1).arrival + cfg.ttl < s.now ∧ 2 * s.n + 1 ≤ mid.count (.wStep 0) ∧
+    (s'.reqs 1).res = .timeout ∧ (s'.reqs 1).dones = 1 := by
+  decide +kernel
+
 /-! ### (D) shutdown releases every waiter and never crashes -/
 
 /-- Under every schedule: once `StopAll` is over (`loop = exited`), every request that was in the
